@@ -10,6 +10,7 @@ Decided:
   R06.4  backward mode: end = time(first booked slot + 1), start = time(last visited slot + 0);
          duration tasks end at time(slot + 1) forward / time(slot + 0) backward
   R06.5  the completion test compares accumulated effort against the requested effort with >=
+  R06.6  the predecessor's part of the start slot is reserved exactly when less than the offset is in use
 Not decided: tightness as a numeric fact.
 """
 from __future__ import annotations
@@ -34,6 +35,122 @@ META = {
 }
 
 
+def _is_own_test(text: str, tvar: str) -> bool:
+    try:
+        e = ast.parse(text, mode="eval").body
+    except SyntaxError:
+        return False
+    if isinstance(e, ast.Compare) and len(e.ops) == 1 and isinstance(e.ops[0], (ast.Eq, ast.Is)):
+        sides = {norm(e.left), norm(e.comparators[0])}
+        return sides == {tvar, "self.property"}
+    return False
+
+
+def _is_requested_effort(e: ast.AST) -> bool:
+    """`effort`, or `effort - k` with a constant k of at most half a second (in hours): within the property's rounding."""
+    if norm(e) == "effort":
+        return True
+    if isinstance(e, ast.BinOp) and isinstance(e.op, ast.Sub) and norm(e.left) == "effort" \
+            and isinstance(e.right, ast.Constant) and isinstance(e.right.value, (int, float)):
+        return 0 <= e.right.value <= 0.5 / 3600.0
+    return False
+
+
+def completion_test_rule(ctx: Ctx, rid: str):
+    """scheduleSlot: the task is complete exactly when doneEffort >= effort (shared by C06 R06.5 / C03 R03.7)."""
+    slot = ctx.repo.func("TaskScenario.scheduleSlot")
+    found = False
+    for nd in own_nodes(slot):
+        if isinstance(nd, ast.If) and isinstance(nd.test, ast.Compare) and "doneEffort" in norm(nd.test) \
+                and any(isinstance(x, ast.Call) and "_calculatePreciseEndTimeAndRelease" in norm(x.func) for s in nd.body for x in ast.walk(s)):
+            tab = order_table(nd.test, lambda e: norm(e) == "self.doneEffort", _is_requested_effort)
+            ok = tab == {"<": False, "=": True, ">": True}
+            found = True
+            ctx.ob(rid, f"{slot.qual}: {norm(nd.test)}", (slot, nd), ok,
+                   "task completes when doneEffort >= effort" if ok else
+                   f"completion test is not doneEffort >= effort (table {tab}): the task is declared finished with less than "
+                   "the requested effort, or books a further slot beyond it",
+                   key=key_of(rid, slot, None, "completion"))
+    if not found:
+        raise AnchorMissing("completion test not found in scheduleSlot")
+
+
+def precise_end_rules(ctx: Ctx, rid: str):
+    """Rules over _calculatePreciseEndTimeAndRelease shared by C06 (R06.1) and C01 (R01.6)."""
+    repo = ctx.repo
+    prec = repo.func("TaskScenario._calculatePreciseEndTimeAndRelease")
+    from .c01 import _signed_terms
+    from .common import enclosing_ifs, facts_of
+    fd = ctx.dep.of(prec)
+    LEDGER = {"field:slotTaskUsage", "field:slotSecondsUsed"}
+    n = 0
+    for r in returns(prec):
+        if r.value is None:
+            continue
+        first = r.value.elts[0] if isinstance(r.value, ast.Tuple) and r.value.elts else r.value
+        n += 1
+        # every slot-based assignment of the returned date, in the forward and in the backward branch
+        per_branch = {"T": [], "F": []}
+        for asg in [n_ for n_ in own_nodes(prec) if isinstance(n_, ast.Assign) and norm(n_.targets[0]) == norm(first)]:
+            br = next((b for (i, b) in enclosing_ifs(asg, prec.node) if norm(i.test) == "forward"), None)
+            if br is None or "call:idxToDate" not in data(fd.deps_of(asg.value)):
+                continue
+            per_branch[br].append(asg)
+        for br, what in (("T", "forward end"), ("F", "backward start")):
+            if not per_branch[br]:
+                raise AnchorMissing(f"_calculatePreciseEndTimeAndRelease: no slot-based {what} assignment")
+            for asg in per_branch[br]:
+                pos_terms = 0
+                for sign, term in _signed_terms(asg.value):
+                    td = data(fd.deps_of(term))
+                    if td & LEDGER and "param:required_effort" not in td:
+                        pos_terms += 1
+                ok = pos_terms > 0
+                ctx.ob(rid, f"{prec.qual}: {what} {norm(asg.value)[:70]}", (prec, asg), ok,
+                       "date has a term that is the in-slot position of this task's portion, read from the slot ledger" if ok else
+                       "the date inside the final slot has no term that places this task's portion by what the slot ledger "
+                       "(per-task seconds / slot total) recorded: a task that shares the slot gets a date measured from the "
+                       "slot edge or from its dependency offset (portions of two tasks overlap / end before own start)",
+                       key=key_of(rid, prec, None, f"precise_end {what}"))
+                d = data(fd.deps_of(asg.value))
+                ok2 = {"param:required_effort", "param:effort_before_slot", "pattr:efficiency"} <= d
+                ctx.ob(rid, f"{prec.qual}: {what} depends on remaining effort and efficiency", (prec, asg), ok2,
+                       "date depends on (required - done before) / efficiency" if ok2 else
+                       "the date does not depend on the effort still needed in the slot and the resource efficiency",
+                       key=key_of(rid, prec, None, f"effort-eff {what}"))
+    if not n:
+        raise AnchorMissing("no return in _calculatePreciseEndTimeAndRelease")
+    # only this task's own ledger record is read
+    g = cfg_of(prec)
+    ffacts = facts_of(prec)
+    nloops = 0
+    for lp in [x for x in own_nodes(prec) if isinstance(x, ast.For) and "slotTaskUsage" in norm(x.iter)]:
+        tgt = lp.target
+        if isinstance(tgt, ast.Call):
+            continue
+        if isinstance(lp.iter, ast.Call) and dotted(lp.iter.func) == "enumerate" and isinstance(tgt, ast.Tuple) and len(tgt.elts) == 2:
+            tgt = tgt.elts[1]
+        if not (isinstance(tgt, ast.Tuple) and len(tgt.elts) == 2 and all(isinstance(e, ast.Name) for e in tgt.elts)):
+            raise AnchorMissing(f"per-task record loop with unrecognised target {norm(lp.target)}")
+        tvar, svar = tgt.elts[0].id, tgt.elts[1].id
+        nloops += 1
+        for st in [x for b in lp.body for x in ast.walk(b) if isinstance(x, ast.stmt)]:
+            uses = any(isinstance(x, ast.Name) and x.id == svar and isinstance(x.ctx, ast.Load)
+                       for x in (ast.walk(st.value) if isinstance(st, (ast.Assign, ast.AugAssign)) else []))
+            if not uses:
+                continue
+            node = g.node_of(st)
+            own = node is not None and ffacts.holds(node, lambda t, p: p and _is_own_test(t, tvar)) is not None
+            ctx.ob(rid, f"{prec.qual}: record read {norm(st)[:60]}", (prec, st), own,
+                   "the seconds of a ledger record are read only for this task's own entry" if own else
+                   "seconds recorded for OTHER tasks in the slot flow into this task's dates: entries of tasks that booked the "
+                   "slot later (released tail) are counted as taken before it",
+                   key=key_of(rid, prec, st, "own-record"))
+    if not nloops:
+        raise AnchorMissing("_calculatePreciseEndTimeAndRelease: no loop over the per-task slot records")
+
+
+
 def run(ctx: Ctx):
     repo = ctx.repo
     ts_sched = repo.func("TaskScenario.schedule")
@@ -43,43 +160,7 @@ def run(ctx: Ctx):
     sscen = repo.func("Project.scheduleScenario")
 
     # ---------------------------------------------------------------- R06.1
-    fd = ctx.dep.of(prec)
-    n = 0
-    for r in returns(prec):
-        if r.value is None:
-            continue
-        first = r.value.elts[0] if isinstance(r.value, ast.Tuple) and r.value.elts else r.value
-        d = data(fd.deps_of(first))
-        ok = bool(d & {"field:slotTaskUsage", "field:slotStartOffset", "field:slotSecondsUsed"})
-        # ... through a term that is the position of the task's portion (independent of the effort still needed)
-        if ok:
-            from .c01 import _signed_terms
-            from ..order import local_resolver
-            res_ = local_resolver(prec.node)
-            pos_terms = 0
-            for asg in [n_ for n_ in own_nodes(prec) if isinstance(n_, ast.Assign) and norm(n_.targets[0]) == norm(first)]:
-                br = next((b for (i, b) in __import__("spverif.rules.common", fromlist=["enclosing_ifs"]).enclosing_ifs(asg, prec.node)
-                           if norm(i.test) == "forward"), None)
-                if br != "T":
-                    continue
-                for sign, term in _signed_terms(asg.value):
-                    td = data(fd.deps_of(term))
-                    if td & {"field:slotTaskUsage", "field:slotStartOffset", "field:slotSecondsUsed"} and "param:required_effort" not in td:
-                        pos_terms += 1
-            ok = pos_terms > 0
-        n += 1
-        ctx.ob("R06.1", f"{prec.qual}: returned end {norm(first)}", (prec, r), ok,
-               "precise end depends on the in-slot position of this task's portion" if ok else
-               "precise end is computed from the slot start and the fraction needed only: a task that began mid-slot "
-               "gets an end measured from the slot start (end before its own start)",
-               key=key_of("R06.1", prec, None, "precise_end"))
-        ok2 = {"param:required_effort", "param:effort_before_slot", "pattr:efficiency"} <= d
-        ctx.ob("R06.1", f"{prec.qual}: end depends on remaining effort and efficiency", (prec, r), ok2,
-               "end depends on (required - done before) / efficiency" if ok2 else
-               "precise end does not depend on the effort still needed in the slot and the resource efficiency",
-               key=key_of("R06.1", prec, None, "effort-eff"))
-    if not n:
-        raise AnchorMissing("no return in _calculatePreciseEndTimeAndRelease")
+    precise_end_rules(ctx, "R06.1")
 
     # ---------------------------------------------------------------- R06.2
     ws = pattr_writes(ctx, book_rs, "start")
@@ -225,19 +306,12 @@ def run(ctx: Ctx):
                    "duration task end offset is not +1 forward / +0 backward", key=key_of("R06.4", slot, None, "duration end"))
 
     # ---------------------------------------------------------------- R06.5 completion test
-    found = False
-    for nd in own_nodes(slot):
-        if isinstance(nd, ast.If) and isinstance(nd.test, ast.Compare) and "doneEffort" in norm(nd.test) \
-                and any(isinstance(x, ast.Call) and "_calculatePreciseEndTimeAndRelease" in norm(x.func) for s in nd.body for x in ast.walk(s)):
-            tab = order_table(nd.test, lambda e: norm(e) == "self.doneEffort", lambda e: norm(e) == "effort")
-            ok = tab == {"<": False, "=": True, ">": True}
-            found = True
-            ctx.ob("R06.5", f"{slot.qual}: {norm(nd.test)}", (slot, nd), ok,
-                   "task completes when doneEffort >= effort" if ok else f"completion test is not doneEffort >= effort (table {tab})",
-                   key=key_of("R06.5", slot, None, "completion"))
-    if not found:
-        raise AnchorMissing("completion test not found in scheduleSlot")
-    ctx.floor("R06.1", 2)
+    completion_test_rule(ctx, "R06.5")
+    # ---------------------------------------------------------------- R06.6 start-offset reservation (shared with C01 R01.4)
+    from .c01 import offset_reservation_rule
+    offset_reservation_rule(ctx, "R06.6")
+    ctx.floor("R06.6", 1)
+    ctx.floor("R06.1", 5)
     ctx.floor("R06.2", 3)
     ctx.floor("R06.3", 6)
     ctx.floor("R06.4", 2)
